@@ -134,7 +134,7 @@ def _mk_yg(variant_, drop_, qual="yield_groups"):
 
     class Y(_YieldGroups):
         qualname, variant, drop, holder = qual, variant_, drop_, holder_
-        loops = {(qual, 0): LoopSpec(make_yg_inv(holder_))}
+        loops = {(qual, 0): LoopSpec(make_yg_inv(holder_), kinds={"i": "carried int"})}
     Y.__name__ = f"YG_{qual}_{drop_}"
     return register(Y)
 
